@@ -322,8 +322,15 @@ class Evaluator:
             c = (x > y) - (x < y)
         elif ka == kb == 'text':
             x, y = a.casefold(), b.casefold()
-            if x != y and (a.lower() != a or b.lower() != b or _NUMTXT.match(a) or _NUMTXT.match(b)):
-                raise NoOpinion('text ordering with case / numeric-looking texts')
+            if (x == y) != (a.lower() == b.lower()):
+                raise NoOpinion('texts whose case folding is not one-to-one')
+            if _NUMTXT.match(a) or _NUMTXT.match(b):
+                if x != y:
+                    raise NoOpinion('numeric-looking texts')
+            elif x != y and (a.lower() != a or b.lower() != b) and op not in ('=', '<>'):
+                # texts are compared without regard to case: equal-but-for-case texts are equal under all six operators and = / <>
+                # always have an answer; which of two DIFFERENT texts comes first when capitals are involved is collation
+                raise NoOpinion('text ordering with capitals')
             c = (x > y) - (x < y)
         elif ka == kb == 'date':
             c = (a > b) - (a < b)
